@@ -4,6 +4,7 @@ package main
 
 import (
 	"fmt"
+	"os"
 	"go/constant"
 	"go/types"
 	"strconv"
@@ -522,6 +523,13 @@ func (e *Env) evalBin(n SBin) Val {
 				return Val{T: t, Typ: boolT}
 			}
 		}
+		// an interface value compared with a concrete value: the concrete
+		// one is converted to the interface type first, as in Go
+		if at.Sort == "Iface" && bt.Sort != "Iface" && b.Typ != nil && a.Typ != nil {
+			bt = x.makeInterface(e.st, b, b.Typ, a.Typ).T
+		} else if bt.Sort == "Iface" && at.Sort != "Iface" && a.Typ != nil && b.Typ != nil {
+			at = x.makeInterface(e.st, a, a.Typ, b.Typ).T
+		}
 		t := Eq(at, bt)
 		if n.Op == "!=" {
 			t = Not(t)
@@ -730,6 +738,13 @@ func (e *Env) matchCalls(lst SList) Term {
 		return x.d.Fresh("calls_unknown", "Bool")
 	}
 	if len(lst.Elems) != len(e.events) {
+		if os.Getenv("GOVC_DEBUG_CALLS") != "" {
+			var ds []string
+			for _, ev := range e.events {
+				ds = append(ds, ev.Kind+":"+ev.Desc)
+			}
+			x.note("calls mismatch: spec has %d, log has [%s]", len(lst.Elems), strings.Join(ds, "; "))
+		}
 		return False
 	}
 	var conds []Term
@@ -944,6 +959,22 @@ func (e *Env) evalCall(n SCall) Val {
 			hk, hs, _, _ := x.mapComps(mt)
 			has := x.heapGet(e.st, hk, hs)
 			return Val{T: And(Not(Eq(m.T, IntLit(0))), Select(Select(has, m.T), x.termOf(e.st, &k))), Typ: boolT}
+		case "hashed":
+			// hashed(h): ghost string of all bytes written to the hash.Hash h
+			h := e.eval(n.Args[0])
+			if h.T.Sort != "Iface" {
+				return e.fail("hashed() needs a hash.Hash")
+			}
+			gh := x.heapGet(e.st, "GH_hashed", "(Array Int String)")
+			return Val{T: Select(gh, Term{fmt.Sprintf("(ival %s)", h.T.S), "Int"}), Typ: types.Typ[types.String]}
+		case "digestOf":
+			a := e.eval(n.Args[0])
+			s := e.eval(n.Args[1])
+			T := lookupType(x.L, "ociregistry", "Digest")
+			if T == nil {
+				return e.fail("digestOf: ociregistry.Digest not loaded")
+			}
+			return x.digestOf(e.st, a.T, s.T, T)
 		case "visited":
 			// visited(m, k): the range over map m in progress has already
 			// produced key k (ghost state of the iteration)
@@ -1170,7 +1201,7 @@ func (x *Exec) uninterp(st *State, name string, args []Val, resT types.Type) Val
 func (x *Exec) pureApp(st *State, f *ssa.Function, args []Val) Val {
 	// an uncontracted repo function used in a spec is given its meaning by
 	// its own body (executed symbolically, obligations suppressed)
-	if x.L.isRepoFunc(f) && len(f.Blocks) > 0 && f.Signature.Results().Len() == 1 && x.specDepth < 3 {
+	if x.L.isRepoFunc(f) && len(f.Blocks) > 0 && f.Signature.Results().Len() >= 1 && x.specDepth < 3 {
 		ctr := x.contractFor(f)
 		if ctr == nil || ctr.Inline {
 			if v, ok := x.execAsSpec(st, f, args, nil); ok {
@@ -1338,13 +1369,14 @@ func (x *Exec) execAsSpec(st *State, f *ssa.Function, args []Val, clo *Closure) 
 	type ret struct {
 		cond Term
 		val  Val
+		vals []Val
 	}
 	var rets []ret
 	x.inlineStack = append(x.inlineStack, f)
 	x.L.indexDebugRefs(f)
 	var facts [][2]Term
 	x.runFunction(f, scratch, args, clo, 1, func(s2 *State, rs []Val) {
-		if len(rs) != 1 {
+		if len(rs) < 1 {
 			return
 		}
 		isCond := map[int]bool{}
@@ -1363,7 +1395,7 @@ func (x *Exec) execAsSpec(st *State, f *ssa.Function, args []Val, clo *Closure) 
 				facts = append(facts, [2]Term{c, s2.pc[i]})
 			}
 		}
-		rets = append(rets, ret{c, rs[0]})
+		rets = append(rets, ret{c, rs[0], rs})
 	})
 	x.inlineStack = savedStack
 	x.specDepth--
@@ -1383,11 +1415,27 @@ func (x *Exec) execAsSpec(st *State, f *ssa.Function, args []Val, clo *Closure) 
 			st.assume(t)
 		}
 	}
-	res := rets[len(rets)-1].val
-	t := x.termOf(st, &res)
-	for i := len(rets) - 2; i >= 0; i-- {
-		v := rets[i].val
-		t = Ite(rets[i].cond, x.termOf(st, &v), t)
+	nres := f.Signature.Results().Len()
+	comp := func(k int) Val {
+		res := rets[len(rets)-1].vals[k]
+		t := x.termOf(st, &res)
+		for i := len(rets) - 2; i >= 0; i-- {
+			v := rets[i].vals[k]
+			t = Ite(rets[i].cond, x.termOf(st, &v), t)
+		}
+		return Val{T: t, Typ: f.Signature.Results().At(k).Type()}
 	}
-	return Val{T: t, Typ: f.Signature.Results().At(0).Type()}, true
+	for _, r := range rets {
+		if len(r.vals) != nres {
+			return Val{}, false
+		}
+	}
+	if nres == 1 {
+		return comp(0), true
+	}
+	var tup []Val
+	for k := 0; k < nres; k++ {
+		tup = append(tup, comp(k))
+	}
+	return Val{Tup: tup}, true
 }
